@@ -19,6 +19,9 @@ import (
 type c15Synth struct {
 	Name  string `json:"name"`
 	Words []int  `json:"words"`
+	// Blank > 0: a file without a single word after normalisation (1 empty, 2 punctuation only, 3 a copyright notice
+	// and "All rights reserved." only): legal members of "any set of license files"
+	Blank int `json:"blank,omitempty"`
 }
 
 type c15Query struct {
@@ -66,7 +69,11 @@ func c15Gen(t *rapid.T) interface{} {
 		case 2: // non-ASCII file name
 			name = fmt.Sprintf("Synth-%d-licença-日本.txt", i)
 		}
-		c.Synth = append(c.Synth, c15Synth{Name: name, Words: lib.Ints(t, 30, 200, 0, len(c15Vocab)-1, "words")})
+		sy := c15Synth{Name: name, Words: lib.Ints(t, 30, 200, 0, len(c15Vocab)-1, "words")}
+		if lib.IntN(t, 0, 5, "blankFile") == 0 {
+			sy.Blank = lib.IntN(t, 1, 3, "blankKind")
+		}
+		c.Synth = append(c.Synth, sy)
 	}
 	nq := lib.IntN(t, 2, 6, "nqueries")
 	for i := 0; i < nq; i++ {
@@ -92,6 +99,10 @@ func c15Files(c *c15Case) []licFile {
 			continue
 		}
 		seen[s.Name] = true
+		if s.Blank > 0 {
+			files = append(files, licFile{s.Name, []string{"", "--- *** ---\n...\n", "Copyright 2017 Example Corp\nAll rights reserved.\n"}[(s.Blank-1)%3]})
+			continue
+		}
 		var w []string
 		for i, k := range s.Words {
 			w = append(w, c15Vocab[((k%len(c15Vocab))+len(c15Vocab))%len(c15Vocab)])
@@ -223,6 +234,9 @@ func c15Check(ci interface{}) lib.Outcome {
 		m := a.NearestMatch(f.Content)
 		if m == nil {
 			continue // text without any common license word: not classified at all (documented prefilter)
+		}
+		if len(strings.Fields(normalizeAll(lc.TrimExtraneousTrailingText(f.Content)))) == 0 {
+			continue // a file without a single word after normalisation cannot be told apart from anything
 		}
 		if m.Confidence != 1.0 || !(m.Name == canonicalName(f.Name) || sameNormalised(files, f, m.Name)) {
 			return lib.Outcome{Violation: fmt.Sprintf("%s: NearestMatch(contents of %s) = {%s %v}, want {%s 1}", desc, f.Name, m.Name, m.Confidence, canonicalName(f.Name))}
